@@ -8,7 +8,8 @@ EXPLANATION = ("std's algorithms are the oracle, encoded as term equalities that
                "are only reached under its negation; (O2) shift formulas — insert/remove/push/pop/swap_remove/split_off/append_elements/extend_from_slice_copy_unchecked/drain/into_iter "
                "perform exactly std's copies (source, destination, count, memmove vs memcpy), reads, writes and length updates, compared after linear normalisation "
                "(BASE + i*size_of::<T>()); (R3) reserve* forward (len, additional) in order and push/insert reserve exactly under len == cap; (R5) RawVec adopts the result of every "
-               "(re)allocation: on the Ok path the returned pointer and the new capacity are stored into self. Equality of results with std for every program is not decided.")
+               "(re)allocation: on the Ok path the returned pointer and the new capacity are stored into self. Equality of results with std for every program is not decided."
+               ' (O2 100 clauses incl. loops via recorded loop steps, views, IntoIter, RawVec constructors; O3 drain_filter 16; O4 Drain/Splice 18; R7 checked size arithmetic of the forked vector; R8 full-view forwarding of comparison/hash/fmt/index/borrow impls; R9 compositions: Clone, Extend, from_iter_in, io::Write, serde, collect_in; R10 the vec! macro analysed on its expansion in a client probe; R11 a failed reserve leaves cap/ptr untouched.)')
 RULE = "rule instance = (method, formula clause); distinct by (method, clause)"
 
 BASE, LEN, SZ = sym('BASE'), sym('LEN'), sym('sizeof(T)')
